@@ -254,8 +254,28 @@ func CheckC11(p *Pkg, e *Env, r *res.Result) {
 			installed[n] = mask[n] && h.Field[n] != ""
 		}
 		for _, op := range p.Ops {
-			for _, creds := range vectors {
+			for vi, creds := range vectors {
 				req := httptest.NewRequest(op.Method, "http://h.example"+p.BasePath+concretePath(op.Template), nil)
+				// every other vector of a body-carrying method also has a form-encoded body
+				// whose fields are named like the query api keys and hold the *opposite*
+				// credential: a credential counts only in its declared location
+				if (op.Method == "POST" || op.Method == "PUT" || op.Method == "PATCH") && vi%2 == 1 {
+					form := url.Values{}
+					for _, name := range specgen.SortedKeys(h.Schemes) {
+						if sch := h.Schemes[name]; refmodel.SchemeKind(sch) == "apikey-query" {
+							if creds[name] == refmodel.CredValid {
+								form.Set(sch.Name, "bogus-"+name)
+							} else {
+								form.Set(sch.Name, "valid-"+name)
+							}
+						}
+					}
+					if len(form) > 0 {
+						req = httptest.NewRequest(op.Method, "http://h.example"+p.BasePath+concretePath(op.Template), strings.NewReader(form.Encode()))
+						req.Header.Set("Content-Type", "application/x-www-form-urlencoded")
+						r.Label("request:decoy-form-body")
+					}
+				}
 				h.Apply(req, creds)
 				in.Reset()
 				events = events[:0]
